@@ -2,6 +2,7 @@ import AaVerif.Proto
 import AaVerif.Generated.Chains
 import AaVerif.Flags
 import AaVerif.Filter
+import AaVerif.FilterLemmas
 import AaVerif.Generated.Dists
 import AaVerif.Generated.AaTables
 import AaVerif.Aa.Order
@@ -79,6 +80,7 @@ def suiteFilterSpec (f : List String) : String :=
   | [dist, abi, ver, text] =>
     let t := unesc text
     b2s (Filter.wf t) ++ "\t" ++ esc (Filter.specText (mkTarget (String.ofList (unesc dist)) abi ver) t)
+      ++ "\t" ++ b2s (Filter.wfInlineSpec (Lines.splitNl t))
   | _ => "err\tbad-op"
 
 def T := Generated.aaTables
